@@ -3,9 +3,13 @@
 
     Chain level: [execute] is compositeSubjectCreator.Execute over authenticators
     abstracted to (outcome on the request, IsFallbackOnErrorAllowed()); all
-    theorems hold for chains of any length.  Type level: [classify] is the error
-    kind each real authenticator type produces per credential shape. *)
+    theorems hold for chains of any length.  Type level: [classify] is the
+    outcome each real authenticator type produces per credential shape, endpoint
+    behaviour and cache lookup; [authenticate] runs a chain of configured steps
+    (prototype flag, rule-level flag) on a request. *)
 From HV Require Import Base.Prelude C04.Model C04.Proofs.
+
+(* ------------------------------------------------------------------ chain level *)
 
 (** the composite is exactly the declarative specification [spec]: skip the
     authenticators that let pass, answer with the first that accepts or blocks,
@@ -13,6 +17,12 @@ From HV Require Import Base.Prelude C04.Model C04.Proofs.
 Theorem C04_execute_iff_spec : forall ca r, execute ca = r <-> spec ca r.
 Proof. exact execute_iff_spec. Qed.
 Print Assumptions C04_execute_iff_spec.
+
+(** "tried in the configured order": the authenticators whose Execute is called
+    are, in call order, the first [n] of the configured list *)
+Theorem C04_tried_in_configured_order : forall ca, calls ca = firstn (fst (execute ca)) ca.
+Proof. exact calls_are_prefix. Qed.
+Print Assumptions C04_tried_in_configured_order.
 
 (** the subject is the one produced by the first authenticator that succeeds *)
 Theorem C04_first_success_wins : forall ca n s,
@@ -26,12 +36,12 @@ Print Assumptions C04_first_success_wins.
     credentials of its kind or allows fallback on error ([n] = number consulted) *)
 Theorem C04_later_only_if_all_earlier_nocreds_or_optin : forall ca n r,
   execute ca = (n, r) ->
-  forall i, i < n -> forall j, j < i ->
+  forall j, S j < n ->
   exists b, nth_error ca j = Some b /\ (no_credentials b \/ opted_in b).
 Proof. exact later_only_if_all_earlier_pass. Qed.
 Print Assumptions C04_later_only_if_all_earlier_nocreds_or_optin.
 
-(** credentials found and not accepted, no opt-in: authentication fails and
+(** a failure other than "no credentials", no opt-in: authentication fails and
     nothing behind that authenticator is consulted, even if it would succeed *)
 Theorem C04_rejected_without_optin_fails_even_if_later_accepts : forall pre a post e,
   Forall (fun b => ~ succeeds b) pre -> blocks a e ->
@@ -45,45 +55,78 @@ Theorem C04_rejected_without_optin_exact : forall pre a post e,
 Proof. exact rejected_without_optin_exact. Qed.
 Print Assumptions C04_rejected_without_optin_exact.
 
-(** the [idx < len(ca)] test in the loop never decides anything *)
-Theorem C04_index_test_vacuous : forall ca, execute ca = exec_plain None ca.
-Proof. exact execute_plain. Qed.
-Print Assumptions C04_index_test_vacuous.
+(* ------------------------------------------------------------------ type level *)
 
-(** per type: a request is answered with an argument-kind ("no credentials")
-    error exactly when it carries no credentials of the authenticator's kind;
-    present-and-rejected credentials, remote failures etc. never are *)
-Theorem C04_classify_T_sound : forall t q,
-  classify t q = Failed ENoCreds <-> presented t q = false.
+(** per type with a credential kind: a request is answered with an argument-kind
+    ("no credentials") error exactly when it carries no credentials of that kind
+    — whatever the endpoints do and the cache holds; the types without a kind
+    (anonymous, unauthorized) never answer so *)
+Theorem C04_no_credentials_iff_none_presented : forall t k h q,
+  kind_of t = Some k ->
+  (classify t h q = Failed ENoCreds <-> presented k q = false).
 Proof. exact classify_sound. Qed.
-Print Assumptions C04_classify_T_sound.
+Print Assumptions C04_no_credentials_iff_none_presented.
 
-Theorem C04_anonymous_unauthorized_fixed : forall q fb sub,
-  classify (TAnonymous sub) q = Accepted sub /\
-  classify TUnauthorized q = Failed ERejected /\
-  fallback_allowed {| a_type := TAnonymous sub; a_fb := fb |} = false /\
-  fallback_allowed {| a_type := TUnauthorized; a_fb := fb |} = false.
-Proof. exact classify_fixed. Qed.
-Print Assumptions C04_anonymous_unauthorized_fixed.
+Theorem C04_kindless_never_no_credentials : forall t h q,
+  kind_of t = None -> classify t h q <> Failed ENoCreds.
+Proof. exact classify_kindless. Qed.
+Print Assumptions C04_kindless_never_no_credentials.
 
-(** both levels together, on chains of real authenticator types *)
-Theorem C04_typed_rejected_blocks : forall q pre a post,
-  Forall (fun b => forall s, classify (a_type b) q <> Accepted s) pre ->
-  presented (a_type a) q = true ->
-  (forall s, classify (a_type a) q <> Accepted s) ->
-  fallback_allowed a = false ->
-  exists n e, authenticate (pre ++ a :: post) q = (n, RError e) /\ n <= S (length pre).
+(** for all fallback settings: IsFallbackOnErrorAllowed() is true only for a step
+    that opts in (rule-level setting true, or none and the prototype's true) *)
+Theorem C04_fallback_only_if_opted_in : forall a, fallback_allowed a = true -> opts_in a.
+Proof. exact fallback_only_if_opted_in. Qed.
+Print Assumptions C04_fallback_only_if_opted_in.
+
+(** on chains of real authenticator types: a later one is consulted only if every
+    earlier one found no credentials of its kind in the request or is opted in *)
+Theorem C04_typed_later_only_if : forall q hits ca n r,
+  authenticate ca hits q = (n, r) ->
+  forall j, S j < n ->
+  exists a, nth_error ca j = Some a /\
+    ((exists k, kind_of (a_type a) = Some k /\ presented k q = false) \/ opts_in a).
+Proof. exact typed_later_only_if. Qed.
+Print Assumptions C04_typed_later_only_if.
+
+(** ... the subject is that of the first authenticator that accepts ... *)
+Theorem C04_typed_first_success : forall q hits ca n s,
+  authenticate ca hits q = (n, RSubject s) ->
+  exists j a h, n = S j /\ nth_error ca j = Some a /\ classify (a_type a) h q = Accepted s.
+Proof. exact typed_first_success. Qed.
+Print Assumptions C04_typed_first_success.
+
+(** ... and one that finds credentials of its kind, does not accept them and is
+    not opted in ends the authentication with an error, whatever follows *)
+Theorem C04_typed_rejected_blocks : forall q hits pre a post,
+  Forall (never_accepts q) pre ->
+  presents q a -> never_accepts q a -> ~ opts_in a ->
+  exists n e, authenticate (pre ++ a :: post) hits q = (n, RError e) /\ n <= S (length pre).
 Proof. exact typed_rejected_blocks. Qed.
 Print Assumptions C04_typed_rejected_blocks.
 
-(** non-vacuity: wrong basic-auth password, no opt-in, anonymous behind it *)
+(** the rejections the statement names — wrong password, bad signature, inactive
+    token, failed assertion ([named_rejection], C04/Proofs.v) *)
+Theorem C04_named_rejections_block : forall q hits pre a post,
+  Forall (never_accepts q) pre ->
+  named_rejection q (a_type a) -> ~ opts_in a ->
+  exists n e, authenticate (pre ++ a :: post) hits q = (n, RError e) /\ n <= S (length pre).
+Proof. exact named_rejections_block. Qed.
+Print Assumptions C04_named_rejections_block.
+
+(** non-vacuity: wrong basic-auth password, no opt-in, anonymous behind it; the
+    same with the opt-in on the rule level *)
 Example C04_nonvacuous :
-  let q := {| q_auth := AHBasic (BPair "alice" "wrong"); q_query := None; q_body := BodyNone;
-              q_cookie := None; q_xsess := None |} in
-  authenticate [ {| a_type := TJwt RUp; a_fb := false |};
-                 {| a_type := TBasic "alice" "secret"; a_fb := false |};
-                 {| a_type := TAnonymous "anon"; a_fb := false |} ] q = (2, RError ERejected) /\
-  authenticate [ {| a_type := TJwt RUp; a_fb := false |};
-                 {| a_type := TBasic "alice" "secret"; a_fb := true |};
-                 {| a_type := TAnonymous "anon"; a_fb := false |} ] q = (3, RSubject "anon").
-Proof. vm_compute. split; reflexivity. Qed.
+  let q := {| q_auth := AHBasic (BPair "alice" "wrong"); q_xtok := None; q_query := None; q_body := BodyNone;
+              q_cookie := None; q_xsess := None; q_sw := SUp |} in
+  let jwt := {| a_type := TJwt SrcDefault DDirect (RFixed SUp) false; a_proto_fb := false; a_over_fb := None |} in
+  let anon := {| a_type := TAnonymous "anon"; a_proto_fb := false; a_over_fb := None |} in
+  let basic o := {| a_type := TBasic "alice" "secret"; a_proto_fb := false; a_over_fb := o |} in
+  authenticate [jwt; basic None; anon] [] q = (2, RError ERejected) /\
+  authenticate [jwt; basic (Some true); anon] [] q = (3, RSubject "anon") /\
+  named_rejection q (a_type (basic None)) /\ ~ opts_in (basic None) /\ never_accepts q jwt.
+Proof.
+  vm_compute. repeat split.
+  - eapply rej_wrong_password; reflexivity.
+  - intros [H | H1 H2]; discriminate.
+  - intros h s H. destruct h; discriminate.
+Qed.
